@@ -13,6 +13,9 @@ import (
 // paramNames of a callee: from ssa params, the contract, or the signature.
 func paramNames(fn *ssa.Function, ct *Contract, sig *types.Signature, hasRecv bool) []string {
 	var names []string
+	if ct != nil && len(ct.Params) > 0 {
+		return ct.Params
+	}
 	if fn != nil && len(fn.Params) > 0 {
 		for _, p := range fn.Params {
 			names = append(names, p.Name())
